@@ -76,7 +76,7 @@ Definition dispatch (fid : Z) (v : value) : value :=
   (* 3: (user left_img bands_left bands_right) -> check_conf *)
   | 3 => enc_odict (full_check gen_defs open_orc all_ok2 all_ok1 (bands_fn v) classes interpolation_methods
                                (dec_dict (vnth 0 v)))
-  (* 4: as 2, the code before fix e0eac6a (regression witness D8) *)
+  (* 4: as 2, the code before fix e44909e (regression witness D8) *)
   | 4 => enc_odict (main_saved_before gen_defs open_orc all_ok2 all_ok1 (bands_fn v) classes interpolation_methods
                                       (dec_jv (vnth 4 v)) (dec_dict (vnth 0 v)))
   (* 5: step name -> the indicator the run stores *)
